@@ -125,6 +125,11 @@ impl Scenario for S5 {
                 .set("enum", J::obj().set("kind", J::U(ki as u128)).set("pre", J::U(pre as u128)).set("base", J::U(base as u128)).set("name", J::str(&ks[ki].name)))
                 .set("swarm", J::obj().set("nops", J::U(192)));
         }
+        if mix == "C16heap" {
+            // memcheck pass: native SIMD code on exact-size heap blocks (run under valgrind by the driver)
+            let fam_w = J::obj().set("cipher", J::U(3)).set("ciphernew", J::U(2)).set("hash", J::U(3)).set("hashout", J::U(1)).set("threefish", J::U(1)).set("vecio", J::U(3)).set("blockapi", J::U(1)).set("jh", J::U(1));
+            return J::obj().set("host", J::U(host as u128)).set("heap", J::U(1)).set("swarm", J::obj().set("nops", J::U(24)).set("fam", fam_w));
+        }
         let fam_w = J::obj()
             .set("cipher", J::U(sw.range(0, 4) as u128))
             .set("ciphernew", J::U(sw.range(0, 1) as u128))
@@ -140,7 +145,9 @@ impl Scenario for S5 {
         let host = setup.u_or("host", 0) as u8;
         hosts::set_current(host);
         let enumerate = setup.get("enum").map(|e| (e.u_or("kind", 0) as usize, e.u_or("pre", 0) as usize, e.u_or("base", 0) as usize));
-        World { host, arena: Arena::new(3), kinds: kinds(), swarm: setup.get("swarm").cloned().unwrap_or(J::obj()), log: 0, steps: 0, enumerate }
+        let mut arena = Arena::new(3);
+        arena.heap_mode = setup.u_or("heap", 0) == 1;
+        World { host, arena, kinds: kinds(), swarm: setup.get("swarm").cloned().unwrap_or(J::obj()), log: 0, steps: 0, enumerate }
     }
     fn gen_op(&self, w: &World, _mix: &str, st: &mut Streams) -> Option<Op> {
         if w.steps >= w.swarm.u_or("nops", 24) as u64 {
